@@ -106,7 +106,8 @@ func runC14(job *Job, res *Result) {
 	os.Setenv("SCIPIPE_BUFSIZE", "8")
 	thorough := job.Args["tier"] == "thorough"
 	names := strings.Split(job.Args["names"], "|")
-	paths := []string{"a", "b", "ab", "a/b", "a.b"}
+	// "a/a/b", "../../a": a directory named like its parent inside the path
+	paths := []string{"a", "b", "ab", "a/b", "a.b", "a/a/b", "../../a"}
 	vals := []string{"b", "b_c", "c"}
 	if v := job.Args["vals"]; v != "" {
 		// parameter / tag values outside the path alphabet (they are legal values; only paths are restricted)
